@@ -420,40 +420,74 @@ pub fn writer_case(t: &mut Toks) -> String {
 
 /// `comp`: a composite (ConcatSource of boxed items, or ReplaceSource) and its children standalone.
 pub fn comp_case(line: &str) -> String {
+  // locate the warm-up calls that follow the composite
   let mut t = Toks::new(line);
   t.next();
   t.next();
   let start = t.pos;
-  let mut ctx = Ctx::default();
-  let comp = build(&mut t, &mut ctx).boxed();
-  // children, each built standalone from its own tokens
-  let mut t2 = Toks::new(line);
-  t2.pos = start;
-  let mut kids: Vec<BoxSource> = Vec::new();
-  match t2.next() {
-    "concat" | "concata" => {
-      let n = t2.num();
-      for _ in 0..n {
-        assert_eq!(t2.next(), "b");
-        let mut c = Ctx::default();
-        kids.push(build(&mut t2, &mut c).boxed());
+  let mut ctx0 = Ctx::default();
+  let _ = build(&mut t, &mut ctx0);
+  let mut warm: Vec<(u64, String)> = Vec::new();
+  if t.peek().is_some() {
+    let n = t.num();
+    for _ in 0..n {
+      let id = t.num();
+      let op = t.next().to_string();
+      warm.push((id, op));
+    }
+  }
+  let apply = |ctx: &Ctx| {
+    for (id, op) in &warm {
+      if let Some(c) = ctx.cached.get(id) {
+        run_wop(c, op);
       }
     }
-    "repl" => {
-      let mut c = Ctx::default();
-      kids.push(build(&mut t2, &mut c).boxed());
+  };
+  // every observation is made on a freshly built and warmed instance
+  let comp = || -> BoxSource {
+    let mut t = Toks::new(line);
+    t.pos = start;
+    let mut ctx = Ctx::default();
+    let s = build(&mut t, &mut ctx).boxed();
+    apply(&ctx);
+    s
+  };
+  // children, each built standalone from its own tokens
+  let kids = || -> Vec<BoxSource> {
+    let mut t2 = Toks::new(line);
+    t2.pos = start;
+    let mut kids: Vec<BoxSource> = Vec::new();
+    match t2.next() {
+      "concat" | "concata" => {
+        let n = t2.num();
+        for _ in 0..n {
+          assert_eq!(t2.next(), "b");
+          let mut c = Ctx::default();
+          let k = build(&mut t2, &mut c).boxed();
+          apply(&c);
+          kids.push(k);
+        }
+      }
+      "repl" => {
+        let mut c = Ctx::default();
+        let k = build(&mut t2, &mut c).boxed();
+        apply(&c);
+        kids.push(k);
+      }
+      k => panic!("comp over {}", k),
     }
-    k => panic!("comp over {}", k),
+    kids
+  };
+  let mut out = vec![format!("src={}", hex(comp().source().as_bytes()))];
+  out.push(format!("e10={}", record_stream(&comp(), true, false).0));
+  out.push(format!("e00={}", record_stream(&comp(), false, false).0));
+  let nk = kids().len();
+  out.push(format!("nk={}", nk));
+  for i in 0..nk {
+    out.push(format!("k{}.e10={}", i, record_stream(&kids()[i], true, false).0));
   }
-  let mut out = vec![format!("src={}", hex(comp.source().as_bytes()))];
-  out.push(format!("e10={}", record_stream(&comp, true, false).0));
-  out.push(format!("e00={}", record_stream(&comp, false, false).0));
-  out.push(format!("nk={}", kids.len()));
-  for (i, k) in kids.iter().enumerate() {
-    out.push(format!("k{}.e10={}", i, record_stream(k, true, false).0));
-  }
-  for (i, k) in kids.iter().enumerate() {
-    out.push(format!("k{}.e00={}", i, record_stream(k, false, false).0));
+  for i in 0..nk {
+    out.push(format!("k{}.e00={}", i, record_stream(&kids()[i], false, false).0));
   }
   out.join(" ")
 }
